@@ -39,6 +39,8 @@ type HOp struct {
 	Data bool        `json:"data,omitempty"` // quote: the data fee is replaced (else the standard fee)
 	Unit ref.FeeUnit `json:"unit,omitempty"` // quote: new mining rate
 	Tag  int         `json:"tag,omitempty"`  // quote: FeeType field of the registered fee object (ref.FeeTag*)
+	Via   string      `json:"via,omitempty"`   // quote: the exported way the quote object is changed (ref.FeeQuoteEdit.Via)
+	Unit2 ref.FeeUnit `json:"unit2,omitempty"` // quote via unmarshal: new rate of the other type
 	Q    int         `json:"q,omitempty"`    // query mask after this step (0 = every query)
 }
 
@@ -98,6 +100,7 @@ type hState struct {
 	q  ref.FeeQuote
 	tx *bt.Tx
 	fq *bt.FeeQuote
+	lq *ref.FeeQuoteLib
 	// every breakdown the library handed out, with the reference it had to equal at that
 	// moment: looked at again after the last step (a result is a value; a later call or a
 	// later edit of the transaction must not reach back into it)
@@ -137,6 +140,10 @@ func (s *hState) hRetained() error {
 }
 
 // hValid reports whether the op is well formed for the state (a replayed file may hold anything).
+func hEdit(op HOp) ref.FeeQuoteEdit {
+	return ref.FeeQuoteEdit{Via: op.Via, Data: op.Data, Unit: op.Unit, Unit2: op.Unit2, Tag: op.Tag}
+}
+
 func hValid(op HOp) string {
 	switch op.Kind {
 	case "oappend", "repin", "repout":
@@ -159,7 +166,7 @@ func hValid(op HOp) string {
 			return "invalid private key"
 		}
 	case "quote":
-		if op.Unit.Bytes < 1 || op.Unit.Sat < 0 || op.Unit.Sat > 1000000 || op.Unit.Bytes > 1000000 {
+		if !ref.FeeQuoteEditOK(hEdit(op)) {
 			return "quote outside domain"
 		}
 	}
@@ -351,14 +358,11 @@ func (s *hState) apply(op HOp) (string, error) {
 		s.m.In = s.m.In[:op.N:op.N]
 		s.tx.Inputs = s.tx.Inputs[:op.N]
 	// ---- the quote object -------------------------------------------------------
-	case "quote": // AddQuote replaces one fee of the quote object every call has been given
-		if op.Data {
-			s.q.Data = op.Unit
-			s.fq.AddQuote(bt.FeeTypeData, ref.FeeLibFee(bt.FeeTypeData, op.Unit, s.q.DataRelay, op.Tag))
-		} else {
-			s.q.Std = op.Unit
-			s.fq.AddQuote(bt.FeeTypeStandard, ref.FeeLibFee(bt.FeeTypeStandard, op.Unit, s.q.StdRelay, op.Tag))
+	case "quote": // the quote object every call has been given is changed through one of the exported ways
+		if err := s.lq.Apply(&s.q, hEdit(op)); err != nil {
+			return "", fmt.Errorf("updating the quote object (%s): %v", op.Via, err)
 		}
+		return "quote-step:via=" + hEdit(op).Via, nil
 	// ---- the object is used for something else in between ----------------------------
 	case "touch": // serialisations, id, JSON: answers are thrown away
 		_ = s.tx.Bytes()
@@ -581,7 +585,12 @@ func checkHistory(ctx *pbt.Ctx, c HistCase) error {
 		s.m.Out = append(s.m.Out, ref.Out{Sats: o.Sats, Script: append(pbt.Hex{}, o.Script...)})
 	}
 	s.tx = ref.ToLib(s.m)
-	s.fq = ref.FeeQuoteToLibTagged(c.Quote)
+	lq, err := ref.FeeQuoteBuild(c.Quote)
+	if err != nil {
+		return fmt.Errorf("building the quote object: %v", err)
+	}
+	s.lq, s.fq = lq, lq.Q
+	ctx.After(lq.Unmodified)
 	// satoshi amounts are uint64: every amount is in the domain as long as neither total overflows
 	inDomain := func() bool {
 		return ref.FeeSumIn(s.m).IsUint64() && ref.FeeSumOut(s.m).IsUint64() && !ref.Ambiguous(s.m)
@@ -697,7 +706,7 @@ func hDescribe(op HOp) string {
 	case "obyte":
 		return fmt.Sprintf("obyte(output %d, byte %d := %#02x)", op.At, op.N, byte(op.U64))
 	case "quote":
-		return fmt.Sprintf("quote(data=%v, %d/%d)", op.Data, op.Unit.Sat, op.Unit.Bytes)
+		return fmt.Sprintf("quote(via %s, data=%v, %d/%d, other %d/%d)", op.Via, op.Data, op.Unit.Sat, op.Unit.Bytes, op.Unit2.Sat, op.Unit2.Bytes)
 	}
 	return fmt.Sprintf("%s(at %d)", op.Kind, op.At)
 }
@@ -816,6 +825,8 @@ func genHOp(t *rapid.T, nin, nout int) HOp {
 		op.Data = rapid.Bool().Draw(t, "data")
 		op.Unit = genUnit(t, "unit")
 		op.Tag = genFeeTag(t, "tag")
+		op.Via = genQuoteVia(t, "via")
+		op.Unit2 = genUnit(t, "unit2")
 	case "rep": // element counts reach the three-byte prefix on one side only, or on both
 		total := rapid.SampledFrom([]int{251, 252, 253, 254}).Draw(t, "total")
 		if rapid.Bool().Draw(t, "side") {
